@@ -99,6 +99,9 @@ def to_real(mj):
         def update_func(simulation):
             pass
         return M.SQLMutation(mj[1], ['SELECT 1;'], update_func)
+    if kind == 'SQLRaw':
+        # raw SQL without update_func: cannot be simulated
+        return M.SQLMutation(mj[1], list(mj[2]))
     raise ValueError(kind)
 
 
@@ -224,7 +227,7 @@ def apply(project, label, mj):
             # "won't change any database state": tables keep their names
             m['meta']['db_table'] = S.table_name(old, m)
         app['label'] = new
-    elif kind == 'SQLBarrier':
+    elif kind in ('SQLBarrier', 'SQLRaw'):
         pass
     else:
         raise ValueError(kind)
